@@ -3,11 +3,14 @@
 (* (a) SpecMC: exhaustive check of the reference machine                   *)
 (*        Build ; (Save ; Open)*                                            *)
 (*     with the serialiser and a reader that has a `case` for everything   *)
-(*     except the groups in Lost and the body-level kinds in LostKinds.    *)
-(*     With both empty (the intended reader) the round trip is the         *)
-(*     identity and the judge is silent; otherwise the judge must report   *)
-(*     exactly what is lost, attributed to the features / constructors     *)
-(*     that requested it, and nothing after cycle 1.                       *)
+(*     except the groups in Lost and the body-level kinds in LostKinds,    *)
+(*     and that returns the instances of the multi groups in Alias as      *)
+(*     copies of the last one. With all three empty (the intended reader)  *)
+(*     the round trip is the identity and the judge is silent; otherwise   *)
+(*     the judge must report exactly what is lost / changed, attributed to *)
+(*     the features / constructors that requested it, and nothing after    *)
+(*     cycle 1. The alphabets contain targets below a nested table node    *)
+(*     (DeepCtors) and sections with several header / footer references.   *)
 (* (b) SpecGen: generation of the behaviours replayed on the library: a     *)
 (*     focus element carrying 0..MaxF features, embedded in a context.     *)
 (***************************************************************************)
@@ -17,7 +20,9 @@ CONSTANTS
   Cycles,        \* number of Save;Open cycles per behaviour
   Lost,          \* SpecMC: groups (below an element) the modelled reader drops
   LostKinds,     \* SpecMC: body-level element kinds the modelled reader drops
-  MCCtors, MCFeats, MCSect,  \* SpecMC: small alphabets
+  Alias,         \* SpecMC: multi groups whose instances the modelled reader aliases to the last one
+  MCCtors, MCFeats, MCSect,  \* SpecMC: small alphabets (section features: every subset of at most MCSectMax)
+  MCSectMax,
   MinF, MaxF,    \* SpecGen: number of features on the focus element
   SingleCtors,   \* constructors that receive every applicable single feature
   PairCtors,     \* constructors that receive feature sets of size >= 2
@@ -25,6 +30,8 @@ CONSTANTS
   FocusKinds,    \* subset of {"ctor", "sect"}: what may be the focus
   CtxMode,       \* "one": a context determined by the focus; "all": every context
   PreSaves       \* subset of BOOLEAN: build with / without an intermediate serialisation
+
+ASSUME Alias \subseteq MultiGroups /\ Alias \cap Lost = {}
 
 VARIABLES st, hist, g
 vars == <<st, hist, g>>
@@ -42,7 +49,7 @@ FeatSets(c) == LET A == {f \in MCFeats : Applicable(c, f)}
 MCBuilds == {BuildOp(<<[c |-> c, fs |-> Canon(fs)]>> \o tail, Canon(sf), "last") :
                 c \in MCCtors, fs \in UNION {FeatSets(cc) : cc \in MCCtors},
                 tail \in {<<>>, <<[c |-> "c.para", fs |-> <<>>]>>},
-                sf \in {{}} \cup {{f} : f \in MCSect}}
+                sf \in {x \in SUBSET MCSect : Cardinality(x) <= MCSectMax}}
 MCBuildsOK == {b \in MCBuilds : \A f \in SeqSet(b.els[1].fs) : Applicable(b.els[1].c, f)}
 
 MCStep(op, P) ==
@@ -55,14 +62,14 @@ MCBuild == /\ st.phase = "new"
 MCSave  == /\ st.phase \in {"built", "opened"} /\ st.n < Cycles
            /\ st' = [MCStep(SaveOp, Ser(st.mem)) EXCEPT !.phase = "saved", !.disk = Ser(st.mem)]
 MCOpen  == /\ st.phase = "saved"
-           /\ st' = [MCStep(OpenOp, Parse(st.disk, Lost, LostKinds)) EXCEPT !.phase = "opened", !.mem = Parse(st.disk, Lost, LostKinds), !.n = @ + 1]
+           /\ st' = [MCStep(OpenOp, Parse(st.disk, Lost, LostKinds, Alias)) EXCEPT !.phase = "opened", !.mem = Parse(st.disk, Lost, LostKinds, Alias), !.n = @ + 1]
 MCNext == (MCBuild \/ MCSave \/ MCOpen) /\ UNCHANGED <<hist, g>>
 SpecMC == MCInit /\ [][MCNext]_vars
 
 \* the design-level statement of C03: with a reader that handles everything, opening what
 \* was saved gives back the document that was built, and saving again writes the same part
 StripSrc(P) == [P EXCEPT !.els = [i \in 1..Len(P.els) |-> [P.els[i] EXCEPT !.src = 0]]]
-Intended == Lost = {} /\ LostKinds = {}
+Intended == Lost = {} /\ LostKinds = {} /\ Alias = {}
 Inv_Identity == Intended =>
                   /\ st.phase = "opened" => StripSrc(st.mem) = StripSrc(Model(st.built))
                   /\ st.phase \in {"saved", "opened"} => StripSrc(st.disk) = StripSrc(Model(st.built))
@@ -76,12 +83,26 @@ ExpectedLoss(b) ==
         gone == {j \in 1..Len(c.kinds) : c.kinds[j] \in LostKinds}
     IN {<<"C03", "dropped-on-open", c.name, c.kinds[j]>> : j \in gone}
        \cup (IF c.main \in gone THEN {}
+             ELSE IF b.els[i].c \in DeepCtors /\ "tbl" \in Lost
+             THEN \* the nested table node that governs everything the features left
+                  {<<"C03", "dropped-on-open", a, "tbl">> : a \in Attr(b, i, "tbl")}
              ELSE UNION {{<<"C03", "dropped-on-open", a, gg>> : a \in Attr(b, i, gg)} : gg \in ElGroups(b.els[i]) \cap Lost})
     : i \in 1..Len(b.els)}
   \cup UNION {{<<"C03", "dropped-on-open", a, gg>> : a \in Attr(b, 0, gg)} :
                 gg \in UNION {FT[f].gs : f \in {x \in SeqSet(b.sect) : FT[x].exp = "all"}} \cap Lost}
-Inv_Exact == (st.phase = "opened" \/ (st.phase = "saved" /\ st.n >= 1)) => C03Wits = ExpectedLoss(st.built)
+\* an aliasing reader changes every multi group of which an element (that is read at all) holds two instances or more
+AliasWits(b, i, E) ==
+  UNION {IF Cardinality({k \in DOMAIN E : E[k].g = gg}) >= 2
+         THEN {<<"C03", "changed", a, gg>> : a \in Attr(b, i, gg)} ELSE {} : gg \in Alias}
+ExpectedAlias(b) ==
+  LET M == Model(b)
+  IN UNION {IF M.els[j].k \in LostKinds THEN {} ELSE AliasWits(b, M.els[j].src, M.els[j].ents) : j \in 1..Len(M.els)}
+     \cup (IF M.hs = 1 THEN AliasWits(b, 0, M.sect) ELSE {})
+Inv_Exact == (st.phase = "opened" \/ (st.phase = "saved" /\ st.n >= 1)) => C03Wits = ExpectedLoss(st.built) \cup ExpectedAlias(st.built)
 Inv_NothingEarly == st.phase \in {"new", "built"} \/ (st.phase = "saved" /\ st.n = 0) => C03Wits = {}
+\* an aliasing reader changes values, never the number of instances: the reopened section has as many
+\* entries as the saved one unless the reader is lossy
+Inv_AliasKeepsShape == (Lost = {} /\ st.phase = "opened") => DOMAIN st.mem.sect = DOMAIN st.disk.sect
 
 \* Save never changes the document in memory; Open installs what the reader yields
 Act_SavePure == [][st'.phase = "saved" => st'.mem = st.mem]_vars
